@@ -1,0 +1,36 @@
+//go:build verif
+// +build verif
+
+package gps
+
+import "time"
+
+// Client lemmas for /verif (tool: gov); never called by library code.
+func verifAssert(cond bool, label string) {}
+func verifAssume(cond bool)               {}
+
+const (
+	gpsEpochUnixNano = 315964800 * 1000000000
+	year2100UnixNano = 4102444800 * 1000000000
+)
+
+// UTC -> GPS -> UTC is the identity on every instant 1980-01-06 .. 2100-01-01
+func lemmaC20_utc_gps_utc(t time.Time) {
+	verifAssume(t.UnixNano() >= gpsEpochUnixNano && t.UnixNano() <= year2100UnixNano)
+	d := Time(t).TimeSinceGPSEpoch()
+	back := NewTimeFromTimeSinceGPSEpoch(d)
+	verifAssert(time.Time(back).Equal(t), "identity")
+}
+
+// the mapping UTC -> GPS is strictly increasing
+func lemmaC20_monotonic(t1, t2 time.Time) {
+	verifAssume(t1.UnixNano() >= gpsEpochUnixNano && t2.UnixNano() <= year2100UnixNano && t1.Before(t2))
+	verifAssert(Time(t1).TimeSinceGPSEpoch() < Time(t2).TimeSinceGPSEpoch(), "increasing")
+}
+
+// GPS -> UTC -> GPS: see the contract of this function in zz_contracts_verif.go (identity
+// except for durations inside an inserted leap second, which have no UTC representation)
+func lemmaC20_gps_utc_gps(d time.Duration) time.Duration {
+	t := NewTimeFromTimeSinceGPSEpoch(d)
+	return t.TimeSinceGPSEpoch()
+}
